@@ -247,3 +247,25 @@ def cacheview_flag_reset(ctx):
         if not lowers:
             out.append((fn, resets[0]))
     return ci, out
+
+
+# --------------------------------------------------------- zip(fields, row)
+def zip_truncations(ctx, fn):
+    """call nodes `zip(<field names / header>, <source row>)`: zip stops at the shorter argument, so a row shorter
+    than the header silently loses its trailing fields (the record then has no key for them) -- the package pads such
+    rows (asdict / izip_longest(..., fillvalue=missing))."""
+    fa, events = analysed(ctx, fn)
+    out = []
+    for ev in events:
+        if ev.kind != 'call' or 'builtin:zip' not in ev.info.get('names', ()):
+            continue
+        args = ev.info.get('args') or []
+        if len(args) != 2:
+            continue
+        rowish = [any(a[0] == 'ROW' for a in v) for v in args]
+        fieldish = [any(a[0] == 'HDR' for a in v) or
+                    any(a[0] == 'FRESH' and a[3] and all(x == ('STR',) or x[0] == 'CELL' for x in a[3]) and
+                        any(x == ('STR',) for x in a[3]) for a in v) for v in args]
+        if (rowish[1] and fieldish[0]) or (rowish[0] and fieldish[1]):
+            out.append(ev.node)
+    return out
